@@ -74,6 +74,12 @@ Theorem C03_gcd_is_reference : forall g a b : list Z, is_gcd g a b -> peqb (pabs
 Proof. exact gcd_is_reference. Qed.
 Print Assumptions C03_gcd_is_reference.
 
+(* zero operands of lp_upolynomial_gcd over Z (repaired code): the other operand with lc > 0, which is a gcd *)
+Theorem C03_upoly_gcd_Z_zero_operand : forall (mode : Z) (b : list Z),
+  upoly_gcd_Z mode [] b = Some (pabs b) /\ upoly_gcd_Z mode b [] = Some (pabs b) /\ is_gcd (pabs b) [] b.
+Proof. exact upoly_gcd_Z_zero. Qed.
+Print Assumptions C03_upoly_gcd_Z_zero_operand.
+
 (* the heuristic strategy can only return a common divisor: a candidate is accepted only after both trial
    divisions, and zero pseudo-remainder of d*primitive with d | contents is divisibility in Z[x] (Gauss) *)
 Theorem C03_heuristic_divides_both_partial : forall (n : nat) (A B D : list Z),
